@@ -97,6 +97,9 @@ func guardedFor(wait time.Duration, fn func()) (finished bool, unfinished func()
 
 func main() {
 	r = evid.New("C16", "exploration")
+	if fam := os.Getenv("C16_CHILD"); fam != "" {
+		childMain(fam) // a child process of the free-running engines; never returns
+	}
 	r.Rule("Three engines on the real cache/lru.Cache[int,*Val] vs an independent sequential reference LRU. " +
 		"(a) random sequential histories (put with sizes 0..capacity+3 incl. replacement with a different size, values whose Size() always errors, " +
 		"values whose Size() errors once resident, get, LoadAndDelete, Delete, Range/RangeFILO/RangeFIFO with and without early stop, Len, Size); " +
@@ -108,7 +111,14 @@ func main() {
 		"and for the quiescent invariants; one (prefix,tuple) is one case, fingerprint = tuple shape + hot-key position + prefix length, non-trivial if it had more than one schedule. " +
 		"exhaustive=true refers ONLY to engine (b): per (prefix,tuple) the schedule space at yield-point granularity was enumerated completely; prefixes, tuples, engines (a) and (c) are samples. " +
 		"(c) free-running windows of 3-8 goroutines x 2-4 operations on 2-3 hot keys (random Gosched at the yield points), history checked with porcupine (timeout => inconclusive), " +
-		"quiescent invariants after each window, weak rule for overlapping walks; one window is one case, fingerprint = goroutine count + kinds present, non-trivial if two operations of different goroutines overlapped.")
+		"quiescent invariants after each window, weak rule for overlapping walks; one window is one case, fingerprint = goroutine count + kinds present, non-trivial if two operations of different goroutines overlapped. " +
+		"Engine (c) also has walk-hammer windows (RangeFIFO/RangeFILO/Range in a loop against writers relinking hot entries) and RANGE STORMS: windows in which walker goroutines call Range, RangeFIFO and RangeFILO (with and without early stop) over and over " +
+		"while 1-4 writers run thousands of Put/Get/LoadAndDelete on a key space of 2..3000 keys (evicting or not); every call carries two ticks of a shared logical clock, every value is stored by exactly one Put, the delete callback stamps evictions; " +
+		"oracle per pass: every visited pair was stored under that key by a successful Put called before the pass returned and was not provably gone (deleted, replaced, evicted by a call that had returned) before the pass was called; no key twice; early stop honoured; " +
+		"entries resident during the whole window visited by every un-stopped pass; the same pair rules for Get/LoadAndDelete results; quiescent invariants at the end. " +
+		"The first len(FixedStorms) storm windows are fixed scenarios independent of the seed; fingerprint = scenario + writers + walk shapes + key-space class + evicting + callback, non-trivial if a pass overlapped a call that changed the cache. " +
+		"ALL of engine (c) runs in child processes of this binary: a child killed by a Go runtime fatal error or an unrecovered panic of the cache is a process-crash violation (stderr = witness), a child killed by the watchdog is inconclusive. " +
+		"Engine (b) additionally runs, for every tuple containing the unordered Range, a few RANDOM schedules in which the Range can be paused inside its visitor (not enumerable: the iteration order is not reproducible).")
 	r.Assume("The reference LRU (internal/c16/ref.go) and porcupine v1.3.0 are correct; the two linearizability checkers are cross-checked on every schedule of engine (b).")
 	r.Assume("Yield points sit outside c.mtx, so a parked goroutine never holds the cache mutex; sync.Map operations are atomic segments of their own.")
 	r.Assume("Nominal size of a value = the size it reported when inserted; values never change size, they can only start failing.")
@@ -144,8 +154,24 @@ func main() {
 	tStress := time.Since(start) - tSeq - tSched
 	r.Set("wall_seconds_by_engine", map[string]float64{"sequential": tSeq.Seconds(), "schedules": tSched.Seconds(), "stress": tStress.Seconds()})
 
-	// Deferred watchdog verdicts.
-	r.Count("executions_that_did_not_return_within_soft_wait", int64(pending.Len()))
+	// Deferred watchdog verdicts (of engines (a) and (b); the children judge their own).
+	judgePending(r)
+
+	yp := map[string]int64{}
+	c16.YieldCalls.Range(func(k, v any) bool { yp[k.(string)] = v.(*atomic.Int64).Load(); return true })
+	for k, v := range childYield.m {
+		yp[k] += v
+	}
+	r.Set("yield_point_hits", yp)
+	r.Count("delete_callback_calls", c16.CallbackCalls.Load())
+	pprof.StopCPUProfile()
+	r.Finish(r.Pick(150, 400))
+}
+
+// judgePending classifies the executions that did not return within the soft
+// wait of this process and reports them to out.
+func judgePending(out sink) {
+	out.Count("executions_that_did_not_return_within_soft_wait", int64(pending.Len()))
 	for _, j := range pending.Judge(func(f string, a ...any) { fmt.Printf(f+"\n", a...) }) {
 		switch j.Verdict {
 		case "blocked":
@@ -153,10 +179,10 @@ func main() {
 			w["goroutine_evidence"] = strings.Split(j.Evidence, "\n")
 			w["argument"] = fmt.Sprintf("the cache is private to this execution; %.0fs after its start every goroutine of the execution still inside a cache call is parked acquiring the cache mutex, identically in two dumps %.0fs apart; all its other goroutines have returned or are parked at yield points outside the mutex, so nothing can ever release it",
 				c16.WatchdogAfter.Seconds(), c16.DumpGap.Seconds())
-			r.Count("blocked_forever_confirmed_by_goroutine_dumps", 1)
-			r.Violation(j.P.Sig, j.P.What+" — blocked forever (mutex leaked)", w)
+			out.Count("blocked_forever_confirmed_by_goroutine_dumps", 1)
+			out.Violation(j.P.Sig, j.P.What+" — blocked forever (mutex leaked)", w)
 		case "completed-late":
-			r.Inconclusive("execution-slower-than-soft-wait")
+			out.Inconclusive("execution-slower-than-soft-wait")
 			if j.P.Engine == "sched" {
 				// The schedules extending the abandoned one were not run.
 				r.Exhaustive(false)
@@ -166,16 +192,9 @@ func main() {
 				r.Exhaustive(false)
 			}
 			fmt.Fprintf(os.Stderr, "C16: watchdog fired but not provably blocked: %s\n%s\n", j.P.What, j.Evidence)
-			r.Inconclusive("watchdog-fired-not-provably-blocked")
+			out.Inconclusive("watchdog-fired-not-provably-blocked")
 		}
 	}
-
-	yp := map[string]int64{}
-	c16.YieldCalls.Range(func(k, v any) bool { yp[k.(string)] = v.(*atomic.Int64).Load(); return true })
-	r.Set("yield_point_hits", yp)
-	r.Count("delete_callback_calls", c16.CallbackCalls.Load())
-	pprof.StopCPUProfile()
-	r.Finish(r.Pick(150, 400))
 }
 
 // ---------------------------------------------------------------------------
@@ -355,7 +374,8 @@ func engineSched() {
 		}
 	}
 	const limit = 20000
-	var schedules, truncated, hungN, porcN, disagree atomic.Int64
+	nRangeSamples := r.Pick(60, 120)
+	var schedules, truncated, hungN, porcN, disagree, rangeSampled, rangePauses atomic.Int64
 	var distinct sync.Map
 	var distinctN atomic.Int64
 	var opsBy [8]atomic.Int64
@@ -385,7 +405,7 @@ func engineSched() {
 				fmt.Fprintf(os.Stderr, "C16: slow tuple %s prefix %d: %.1fs\n", shape, j.prefixIdx, d.Seconds())
 			}
 		}()
-		count, complete := c16.Explore(t, limit, func(ex *c16.Exec) {
+		judge := func(ex *c16.Exec) {
 			schedules.Add(1)
 			h := fnv.New64a()
 			h.Write([]byte(shape + "#" + ex.TraceKey()))
@@ -482,7 +502,30 @@ func engineSched() {
 					report(evid.Sig("sched-walk", rule, shape), desc()+": "+txt, nil)
 				}
 			}
-		})
+		}
+		count, complete := c16.Explore(t, limit, judge)
+		// Tuples with the unordered Range: sampled schedules in which the Range
+		// is paused inside its visitor too (see Tuple.PauseRange).
+		hasRange := false
+		for _, o := range ops {
+			hasRange = hasRange || o.Kind == c16.KRange
+		}
+		if hasRange {
+			srng := caseRng("range-pauses", ji)
+			tr := t
+			tr.PauseRange = true
+			tr.Choose = func(_ int, en []int) int { return en[srng.Intn(len(en))] }
+			for k := 0; k < nRangeSamples; k++ {
+				ex := c16.RunSchedule(tr, nil)
+				judge(ex)
+				rangeSampled.Add(1)
+				for _, st := range ex.Trace {
+					if st.At == "walk.visit" && ops[st.Op].Kind == c16.KRange {
+						rangePauses.Add(1)
+					}
+				}
+			}
+		}
 		if !complete {
 			truncated.Add(1)
 			fmt.Fprintf(os.Stderr, "C16: tuple %s (prefix %d) not fully enumerated after %d schedules\n", shape, j.prefixIdx, count)
@@ -497,7 +540,9 @@ func engineSched() {
 	r.Count("tuples_of_2", int64(nPrefPairs*len(pairs)))
 	r.Count("tuples_of_3", int64(nPrefTriples*len(triples)))
 	r.Count("tuple_shapes", int64(len(pairs)+len(triples)))
-	r.Count("schedules_enumerated", schedules.Load())
+	r.Count("schedules_enumerated", schedules.Load()-rangeSampled.Load())
+	r.Count("sched_sampled_schedules_pausing_inside_Range", rangeSampled.Load())
+	r.Count("sched_pauses_inside_Range", rangePauses.Load())
 	r.Count("distinct_interleavings", distinctN.Load())
 	r.Count("tuples_not_fully_enumerated", truncated.Load())
 	r.Count("schedules_that_did_not_return", hungN.Load())
@@ -522,16 +567,28 @@ func retStrings(ops []c16.Op, rets []c16.Ret) []string {
 // engine (c)
 // ---------------------------------------------------------------------------
 
+// engineStress runs the three families of free-running windows, each in child
+// processes of this binary (child.go).
 func engineStress() {
-	c16.InstallHook(true)
-	defer c16.RemoveHook()
-	n := r.Pick(50, 2000)
-	var opsBy sync.Map
-	cnt := func(name string, d int64) {
-		v, _ := opsBy.LoadOrStore(name, new(atomic.Int64))
-		v.(*atomic.Int64).Add(d)
+	timeout := time.Duration(r.Pick(5, 25)) * time.Minute // watchdog of one child; a quick child needs seconds
+	only := os.Getenv("C16_FAMILY")                       // development switch
+	for _, f := range []struct {
+		name string
+		n    int
+	}{{"stress", r.Pick(50, 2000)}, {"hammer", r.Pick(20, 300)}, {"storm", r.Pick(24, 400)}} {
+		if only != "" && only != f.name {
+			continue
+		}
+		runFamily(f.name, f.n, timeout)
+		r.Count(f.name+"_windows", int64(f.n))
 	}
-	parallel(n, 4, func(i int) {
+	r.Count("storm_windows_fixed", int64(len(c16.FixedStorms)))
+}
+
+// stressWindow runs stress window i (in a child process).
+func stressWindow(i int, out sink) {
+	cnt := out.Count
+	{
 		w := c16.GenWindow(caseRng("stress", i))
 		c := c16.NewCache(w.Cap, w.Callback)
 		for _, op := range w.Prefix {
@@ -585,7 +642,7 @@ func engineStress() {
 		addPending := func(what string, unfinished func() []uint64) {
 			pending.Add(&c16.Pending{Engine: "stress", Started: started, Sig: evid.Sig("stress-blocked"),
 				What: "stress window: " + what, Witness: witness(), Unfinished: unfinished})
-			r.Case("stress:blocked", true)
+			out.Case("stress:blocked", true)
 		}
 		if !fin {
 			_ = unf
@@ -634,29 +691,29 @@ func engineStress() {
 		for _, h := range all {
 			if h.Ret.Panic != "" {
 				panicked = true
-				r.Violation(evid.Sig("stress-panic", h.Op.Kind), fmt.Sprintf("stress window: %s panicked: %s", h.Op, h.Ret.Panic), witness())
+				out.Violation(evid.Sig("stress-panic", h.Op.Kind), fmt.Sprintf("stress window: %s panicked: %s", h.Op, h.Ret.Panic), witness())
 				break
 			}
 		}
 		if inv, txt := obs.Structural(w.Cap, sizes); inv != "" && !panicked {
-			r.Violation(evid.Sig("stress-invariant", inv), "stress window: quiescent invariant broken: "+txt, witness())
+			out.Violation(evid.Sig("stress-invariant", inv), "stress window: quiescent invariant broken: "+txt, witness())
 		} else if !panicked {
 			res := c16.Porcupine(w.State, all, &obs, 10*time.Second)
 			cnt("porcupine_histories", 1)
 			switch res {
 			case porcupine.Unknown:
 				cnt("porcupine_unknown", 1)
-				r.Inconclusive("porcupine-timeout")
+				out.Inconclusive("porcupine-timeout")
 			case porcupine.Illegal:
 				res2 := c16.Porcupine(w.State, all, nil, 10*time.Second)
 				cnt("porcupine_histories", 1)
 				if res2 == porcupine.Illegal {
-					r.Violation(evid.Sig("stress-linearizability"), "stress window: the recorded return values are not linearizable w.r.t. the reference LRU", witness())
+					out.Violation(evid.Sig("stress-linearizability"), "stress window: the recorded return values are not linearizable w.r.t. the reference LRU", witness())
 				} else if res2 == porcupine.Ok {
-					r.Violation(evid.Sig("stress-final-state"), fmt.Sprintf("stress window: return values are linearizable but no linearization ends in the observed resident entries %v", obs.FILO), witness())
+					out.Violation(evid.Sig("stress-final-state"), fmt.Sprintf("stress window: return values are linearizable but no linearization ends in the observed resident entries %v", obs.FILO), witness())
 				} else {
 					cnt("porcupine_unknown", 1)
-					r.Inconclusive("porcupine-timeout")
+					out.Inconclusive("porcupine-timeout")
 				}
 			}
 		}
@@ -670,7 +727,7 @@ func engineStress() {
 					continue
 				}
 				if rule, txt := c16.CheckWalkWeak(w.State, others, obs, h.Op, h.Ret); rule != "" {
-					r.Violation(evid.Sig("stress-walk", rule), "stress window: "+txt, witness())
+					out.Violation(evid.Sig("stress-walk", rule), "stress window: "+txt, witness())
 					break
 				}
 			}
@@ -680,14 +737,11 @@ func engineStress() {
 			ks = append(ks, k)
 		}
 		sort.Strings(ks)
-		r.Case(fmt.Sprintf("stress:g=%d:walker=%v:kinds=%s", len(w.Clients), len(w.Walker) > 0, strings.Join(ks, ",")), overlaps > 0)
+		out.Case(fmt.Sprintf("stress:g=%d:walker=%v:kinds=%s", len(w.Clients), len(w.Walker) > 0, strings.Join(ks, ",")), overlaps > 0)
 		if i == 0 {
-			r.Sample(witness())
+			out.Sample(witness())
 		}
-	})
-	r.Count("stress_windows", int64(n))
-	hammer(cnt)
-	opsBy.Range(func(k, v any) bool { r.Count(k.(string), v.(*atomic.Int64).Load()); return true })
+	}
 }
 
 // hammer is the second half of engine (c): long windows in which writers
@@ -696,9 +750,9 @@ func engineStress() {
 // entries are never touched, so EVERY walk must visit each of them exactly once
 // and in their fixed order (the weak walk rule); the quiescent invariants are
 // checked at the end. Histories are too long for a linearizability check.
-func hammer(cnt func(string, int64)) {
-	n := r.Pick(20, 300)
-	parallel(n, 2, func(i int) {
+func hammerWindow(i int, out sink) {
+	cnt := out.Count
+	{
 		rng := caseRng("hammer", i)
 		nWriters, nWalkers, perWriter := 2+rng.Intn(4), 1+rng.Intn(2), 200+rng.Intn(400)
 		const capacity = 64
@@ -740,7 +794,7 @@ func hammer(cnt func(string, int64)) {
 				}
 			}
 		}
-		walkKinds := []string{c16.KFIFO, c16.KFILO}
+		walkKinds := []string{c16.KFIFO, c16.KFILO, c16.KRange}
 		var writersLeft atomic.Int64
 		writersLeft.Store(int64(nWriters))
 		total := nWriters + nWalkers
@@ -771,7 +825,7 @@ func hammer(cnt func(string, int64)) {
 					writersLeft.Add(-1)
 				} else {
 					for j := 0; writersLeft.Load() > 0 || j < 2; j++ {
-						op := c16.Op{Kind: walkKinds[(g+j)%2]}
+						op := c16.Op{Kind: walkKinds[(g+j)%len(walkKinds)]}
 						ret := c16.Do(c, op, nil)
 						walks.Add(1)
 						rule, txt := "", ""
@@ -816,7 +870,7 @@ func hammer(cnt func(string, int64)) {
 					}
 					return ids
 				}})
-			r.Case("hammer:blocked", true)
+			out.Case("hammer:blocked", true)
 			return
 		}
 		cnt("hammer_walks_checked", walks.Load())
@@ -824,15 +878,14 @@ func hammer(cnt func(string, int64)) {
 		spec["quiescent_observation"] = obs
 		for _, b := range bad {
 			parts := strings.SplitN(b, "\x00", 2)
-			r.Violation(evid.Sig("stress-walk", parts[0]), "walk-hammer window: "+parts[1], spec)
+			out.Violation(evid.Sig("stress-walk", parts[0]), "walk-hammer window: "+parts[1], spec)
 			break
 		}
 		if inv, txt := obs.Structural(capacity, sizes); inv != "" && panics.Load() == 0 {
-			r.Violation(evid.Sig("stress-invariant", inv), "walk-hammer window: quiescent invariant broken: "+txt, spec)
+			out.Violation(evid.Sig("stress-invariant", inv), "walk-hammer window: quiescent invariant broken: "+txt, spec)
 		}
-		r.Case(fmt.Sprintf("hammer:writers=%d:walkers=%d:hot=%d:byFirst=%v", nWriters, nWalkers, nhot, byFirst), walks.Load() > int64(2*nWalkers))
-	})
-	r.Count("hammer_windows", int64(n))
+		out.Case(fmt.Sprintf("hammer:writers=%d:walkers=%d:hot=%d:byFirst=%v", nWriters, nWalkers, nhot, byFirst), walks.Load() > int64(2*nWalkers))
+	}
 }
 
 // checkStable applies the weak walk rule to entries nobody ever touches.
